@@ -1,4 +1,4 @@
-import WfProofs.StateStoreSpawn
+import WfProofs.StateStoreTime
 /-!
 # C20 — concurrent state updates are never lost
 
@@ -19,6 +19,12 @@ Tasks created by tasks (`*_with_spawned_tasks`): `sp c = some (p, k)` — task `
 (`asyncio.create_task`) by chunk `k` of the `edit_state` body of task `p`, inside the open block,
 and inherits a copy of `p`'s context; it cannot run or be cancelled before.  That the stores cannot
 tell such a task from any other is read from the source (`GenStateStore.*ContextFree`).
+
+Time (`*_duration_*`, `*_whatever_the_durations`): the awaits inside an `edit_state` body take
+`dur t k` seconds (a slow call inside the block), the scheduler can let any amount of time pass
+(`tick d`), a task asleep at such an await cannot run before it is over.  That nothing else depends
+on the clock — a task queued on the lock waits for as long as the block stays open — is read from the
+source (`GenStateStore.*TimerFree`: the store modules use no timer primitive).
 -/
 open StateStore
 
@@ -442,3 +448,111 @@ example : ∃ s, SpSys.execAll sqlBackend C20_spawnLeakProg C20_spawnLeakMap (Sp
       [.run 0, .run 1, .run 0, .run 1] = some s ∧
     s.allEnded C20_spawnLeakMap = true ∧ s.sys.log = [0, 1] ∧
     s.sys.store.row = some [("x", .int 5), ("y", .int 1)] := ⟨_, rfl, by rfl, by rfl, by rfl⟩
+
+
+/-! ## time: how long a block stays open does not matter -/
+
+/-- the store modules set no timers and bound no wait (no `asyncio.wait_for` / `timeout` / `sleep` /
+`call_later` …), as found in the source: an operation queued on the store lock waits for as long as
+the lock is held, and no transition of a store depends on the clock -/
+theorem C20_source_shape_timer_free :
+    GenStateStore.memTimerFree = true ∧ GenStateStore.sqlTimerFree = true := by decide
+
+theorem memPatience_none (op : COp) : memPatience op = none := rfl
+
+theorem sqlPatience_none (op : COp) : sqlPatience op = none := rfl
+
+/-- The clock is invisible.  For every program, spawn map, assignment `dur` of durations to the awaits
+inside `edit_state` bodies (seconds, minutes, days), and every timed schedule (`run` / `cancel` / `tick d`):
+the timed run is the untimed run of the schedule without its ticks — same store, same lock holder, same
+FIFO, same task positions, same log; a tick is always possible and changes the clock only; an action that
+is enabled stays enabled however much more time passes first.  Both backends. -/
+theorem C20_open_block_duration_is_invisible (prog : List COp) (sp : Spawn) (dur : Durs) (sched : List TAct) :
+    (∀ (m0 : Mem) (s : TSys Mem),
+      TSys.execAll memBackend prog sp dur memPatience (TSys.init m0 prog.length) sched = some s →
+      SpSys.execAll memBackend prog sp (SpSys.init m0 prog.length) (untimed sched) = some s.sp) ∧
+    (∀ (q0 : Sql) (s : TSys Sql),
+      TSys.execAll sqlBackend prog sp dur sqlPatience (TSys.init q0 prog.length) sched = some s →
+      SpSys.execAll sqlBackend prog sp (SpSys.init q0 prog.length) (untimed sched) = some s.sp) ∧
+    (∀ (s : TSys Mem) (d : Nat),
+      TSys.exec memBackend prog sp dur memPatience s (.tick d) = some { s with now := s.now + d }) ∧
+    (∀ (s : TSys Sql) (d : Nat),
+      TSys.exec sqlBackend prog sp dur sqlPatience s (.tick d) = some { s with now := s.now + d }) ∧
+    (∀ (s s' : TSys Mem) (a : Act) (d : Nat), TSys.exec memBackend prog sp dur memPatience s (.act a) = some s' →
+      ∃ s'', TSys.exec memBackend prog sp dur memPatience { s with now := s.now + d } (.act a) = some s'' ∧ s''.sp = s'.sp) ∧
+    (∀ (s s' : TSys Sql) (a : Act) (d : Nat), TSys.exec sqlBackend prog sp dur sqlPatience s (.act a) = some s' →
+      ∃ s'', TSys.exec sqlBackend prog sp dur sqlPatience { s with now := s.now + d } (.act a) = some s'' ∧ s''.sp = s'.sp) :=
+  ⟨fun m0 s h => texecAll_untimed memBackend prog sp dur memPatience memPatience_none sched (TSys.init m0 prog.length) s h,
+   fun q0 s h => texecAll_untimed sqlBackend prog sp dur sqlPatience sqlPatience_none sched (TSys.init q0 prog.length) s h,
+   fun _ _ => rfl, fun _ _ => rfl,
+   fun s s' a d h => texec_after_tick memBackend prog sp dur memPatience memPatience_none s s' a d h,
+   fun s s' a d h => texec_after_tick sqlBackend prog sp dur sqlPatience sqlPatience_none s s' a d h⟩
+
+/-- Serialisability whatever the durations.  For every program, spawn map, durations of the awaits inside
+the blocks and timed schedule after which every task that was created has ended: the final store is the
+serial execution, in some order (creators before what they created), of exactly the tasks that took
+effect.  However long a block stays open across an await, nothing is written in between and no completed
+write is overwritten by it.  Both backends. -/
+theorem C20_serialisable_whatever_the_durations (prog : List COp) (sp : Spawn) (dur : Durs) (sched : List TAct) :
+    (∀ (m0 : Mem) (s : TSys Mem),
+      TSys.execAll memBackend prog sp dur memPatience (TSys.init m0 prog.length) sched = some s →
+      s.sp.allEnded sp = true →
+      ∃ order : List Nat, order.Nodup ∧
+        (∀ t, t ∈ order ↔ (s.sp.sys.pcs[t]? = some Pc.done ∨ ∃ kept, s.sp.sys.pcs[t]? = some (Pc.aborted kept))) ∧
+        (∀ c p k : Nat, sp c = some (p, k) → c ∈ order → Before order p c) ∧
+        s.sp.sys.store = serialBy memBackend (effOp prog s.sp.sys.pcs) m0 order) ∧
+    (∀ (q0 : Sql) (s : TSys Sql),
+      TSys.execAll sqlBackend prog sp dur sqlPatience (TSys.init q0 prog.length) sched = some s →
+      s.sp.allEnded sp = true →
+      ∃ order : List Nat, order.Nodup ∧
+        (∀ t, t ∈ order ↔ (s.sp.sys.pcs[t]? = some Pc.done ∨ ∃ kept, s.sp.sys.pcs[t]? = some (Pc.aborted kept))) ∧
+        (∀ c p k : Nat, sp c = some (p, k) → c ∈ order → Before order p c) ∧
+        s.sp.sys.store = serialBy sqlBackend (effOp prog s.sp.sys.pcs) q0 order) :=
+  ⟨fun m0 s hrun hend => (C20_serialisable_with_spawned_tasks prog sp (untimed sched)).1 m0 s.sp
+      ((C20_open_block_duration_is_invisible prog sp dur sched).1 m0 s hrun) hend,
+   fun q0 s hrun hend => (C20_serialisable_with_spawned_tasks prog sp (untimed sched)).2 q0 s.sp
+      ((C20_open_block_duration_is_invisible prog sp dur sched).2.1 q0 s hrun) hend⟩
+
+/-- a block that stays open for two minutes across its await; `set_state` arrives meanwhile -/
+def C20_slowDur : Durs := fun _ _ => 120
+def C20_noSpawn : Spawn := fun _ => none
+def C20_f18InitMem : Mem := (Mem.step (Mem.init [] .dict) (.set "x" (.int 0))).1
+
+/-- the stores as they are: task 1 queues behind the block; however much time passes (here 30 s, then a day)
+neither its next section nor that of the sleeping block owner before its await is over is enabled;
+after the two minutes the block saves, then the `set_state` runs: `{x: 5}` after `{x: 0, y: 1}` -/
+example : TSys.execAll sqlBackend C20_f18Prog C20_noSpawn C20_slowDur sqlPatience (TSys.init C20_f18Init 2)
+      [.act (.run 0), .act (.run 1), .tick 30, .act (.run 1)] = none ∧
+    TSys.execAll sqlBackend C20_f18Prog C20_noSpawn C20_slowDur sqlPatience (TSys.init C20_f18Init 2)
+      [.act (.run 0), .act (.run 1), .tick 30, .act (.run 0)] = none ∧
+    TSys.execAll memBackend C20_f18Prog C20_noSpawn C20_slowDur memPatience (TSys.init C20_f18InitMem 2)
+      [.act (.run 0), .act (.run 1), .tick 86400, .act (.run 1)] = none := ⟨rfl, rfl, rfl⟩
+
+example : ∃ s, TSys.execAll sqlBackend C20_f18Prog C20_noSpawn C20_slowDur sqlPatience (TSys.init C20_f18Init 2)
+      [.act (.run 0), .act (.run 1), .tick 30, .tick 90, .act (.run 0), .act (.run 1)] = some s ∧
+    s.sp.allEnded C20_noSpawn = true ∧ s.now = 120 ∧ s.sp.sys.log = [0, 1] ∧
+    s.sp.sys.store.row = some [("x", .int 5)] := ⟨_, rfl, by rfl, by rfl, by rfl, by rfl⟩
+
+/-- A store whose short operations stop waiting for the lock after 30 s and are then carried out anyway
+(`patience = some 30`) loses the update, on both backends, as soon as a block stays open longer than that:
+`edit₀: load · set_state₁: queues · 30 s pass · set_state₁: gives up waiting, writes {x: 5} ·
+90 s pass · edit₀: body, save` ends in `{x: 0, y: 1}` although both serial orders keep `x = 5` — with
+blocks shorter than the bound the same store is indistinguishable from the real one.  The two theorems
+above are false for such a store; they rest on `C20_source_shape_timer_free`. -/
+theorem C20_lock_wait_timeout_loses_update :
+    (∃ s, TSys.execAll sqlBackend C20_f18Prog C20_noSpawn C20_slowDur (fun _ => some 30) (TSys.init C20_f18Init 2)
+        [.act (.run 0), .act (.run 1), .tick 30, .act (.run 1), .tick 90, .act (.run 0)] = some s ∧
+      s.sp.allEnded C20_noSpawn = true ∧ s.sp.sys.log = [1, 0] ∧
+      s.sp.sys.store.row = some [("x", .int 0), ("y", .int 1)] ∧ hasX5 s.sp.sys.store = false ∧
+      hasX5 (serial sqlBackend C20_f18Prog C20_f18Init [0, 1]) = true ∧
+      hasX5 (serial sqlBackend C20_f18Prog C20_f18Init [1, 0]) = true) ∧
+    (∃ s, TSys.execAll memBackend C20_f18Prog C20_noSpawn C20_slowDur (fun _ => some 30) (TSys.init C20_f18InitMem 2)
+        [.act (.run 0), .act (.run 1), .tick 30, .act (.run 1), .tick 90, .act (.run 0)] = some s ∧
+      s.sp.allEnded C20_noSpawn = true ∧ s.sp.sys.log = [1, 0] ∧
+      s.sp.sys.store.root.data = [("x", .int 0), ("y", .int 1)] ∧ hasX5m s.sp.sys.store = false ∧
+      hasX5m (serial memBackend C20_f18Prog C20_f18InitMem [0, 1]) = true ∧
+      hasX5m (serial memBackend C20_f18Prog C20_f18InitMem [1, 0]) = true) ∧
+    -- a block shorter than the bound: the impatient store behaves like the real one
+    (TSys.execAll sqlBackend C20_f18Prog C20_noSpawn (fun _ _ => 20) (fun _ => some 30) (TSys.init C20_f18Init 2)
+        [.act (.run 0), .act (.run 1), .tick 20, .act (.run 1)] = none) :=
+  ⟨⟨_, rfl, by rfl, by rfl, by rfl, by rfl, by rfl, by rfl⟩, ⟨_, rfl, by rfl, by rfl, by rfl, by rfl, by rfl, by rfl⟩, rfl⟩
